@@ -170,7 +170,19 @@ func TestC12Names(t *testing.T) {
 	params := []string{"", `{}`, `{"method":"m","interface":"i","parameter":"p","extra":[1,2,{"k":9007199254740993}]}`, `{"parameter":17}`}
 	shard, nshards := Shard()
 	i := 0
-	total := len(names) * len(params) * 2
+	// the handler's own interface must not matter: names in or near the reserved namespace are also sent by handlers of
+	// interfaces that are parents / near misses of it ("org.varlink", "org", ...)
+	type pair struct{ iface, name string }
+	var pairs []pair
+	for _, n := range names {
+		pairs = append(pairs, pair{"x.y", n})
+		if strings.HasPrefix(n, "org.varlink") || strings.HasPrefix(n, "org.") {
+			for _, hi := range []string{"org.varlink", "org", "org.varlink.servic", "org.varlink.service.sub"} {
+				pairs = append(pairs, pair{hi, n})
+			}
+		}
+	}
+	total := len(pairs) * len(params) * 2
 	next := func() (E2ECase, bool) {
 		for i < total {
 			k := i
@@ -178,7 +190,8 @@ func TestC12Names(t *testing.T) {
 			if k%nshards != shard {
 				continue
 			}
-			name := names[k/(len(params)*2)]
+			pr := pairs[k/(len(params)*2)]
+			name := pr.name
 			p := params[(k/2)%len(params)]
 			more := k%2 == 1
 			op := Op{Op: "error", Name: name}
@@ -193,8 +206,8 @@ func TestC12Names(t *testing.T) {
 				sp.Script = append([]Op{{Op: "reply", Continues: true, P: json.RawMessage(`{"first":1}`)}}, sp.Script...)
 			}
 			b, _ := json.Marshal(sp)
-			st := Step{API: "send", Method: "x.y.M", Params: b, More: more}
-			return E2ECase{Ifaces: []string{"x.y"}, Transport: "pipe", Steps: []Step{st}, Origin: "C12Names"}, true
+			st := Step{API: "send", Method: pr.iface + ".M", Params: b, More: more}
+			return E2ECase{Ifaces: []string{pr.iface}, Transport: "pipe", Steps: []Step{st}, Origin: "C12Names"}, true
 		}
 		return E2ECase{}, false
 	}
